@@ -93,15 +93,17 @@ def driver_universe(ex, ck, aborts=False, budget=None):
               b"h\r\n// DDBEGIN\r\nl1\r\nl2\rl3\n// DDEND\r\nt\r", b"u\xc2\x85v\xe2\x80\xa8w\x0cx\n",
               b"x = 'a\\r\\n' + \"b\";\r\n", b'<a b="c"\r\n d=e>\r\n',
               # no delimiter / terminator at the very end
-              b"var a = 1;\nvar b = 2;\ncrash(a)"]
+              b"var a = 1;\nvar b = 2;\ncrash(a)",
+              # braces with blanks inside and between JS strings / attribute values (collapse-brace re-splits the file)
+              b'"a{  }b" "c"\n', b"x = '{ }' + {\n\n} + \"{\n}\";\n"]
     for i, data in enumerate(loaded):
         for atom in ("line", "char", "symbol", "jsstr", "attrs"):
-            if quick and (i + len(atom)) % 2 and i not in (1, 4, 8):
+            if quick and (i + len(atom)) % 2 and i not in (1, 4, 8) and not (i in (9, 10) and atom in ("jsstr", "attrs")):
                 continue
             explore("minimize", {}, None, file0=data, atom=atom, load=True, stream="loaded-" + atom,
                     max_runs=12 if quick else 120)
             # every other strategy on the loaded file too (strategy x atom type x markers), a few verdict sequences each
-            if i in (0, 4, 7) or not quick:
+            if i in (0, 4, 7, 9, 10) or not quick:
                 for strategy in others[:3]:
                     explore(strategy, {}, None, file0=data, atom=atom, load=True, stream="loaded-" + atom,
                             replay=False, max_runs=4 if quick else 40)
@@ -122,6 +124,11 @@ def driver_universe(ex, ck, aborts=False, budget=None):
     for tc in small_layouts(4, alphabet=(b"{\n", b"}\n"), with_nonred=False):
         explore("minimize-balanced", {"move": True}, tc, stream="move", replay=False,   # concrete: Model/PairsMove.v
                 max_runs=40 if quick else 300)
+    # the move with atoms between the brackets (a moved chunk changes places with its neighbours): every verdict sequence
+    for parts in ([b"{\n", b"a\n", b"b\n", b"}\n"], [b"(\n", b"x\n", b"y\n", b"z\n", b")\n"], [b"p\n", b"(\n", b"m\n", b")\n"]):
+        tcm = (b"", parts, [True] * len(parts), b"")
+        for cfg in ({"move": True}, {"move": True, "max": 1, "repeat": "never"}, {"move": True, "repeat": "always"}):
+            explore("minimize-balanced", cfg, tcm, stream="move", replay=False, max_runs=140 if quick else 1500)
     for data in BRACE_SNIPPETS:
         for wrap in wraps:
             explore("minimize-collapse-brace", {}, lines_tc(data, *wrap),
